@@ -59,6 +59,8 @@ pub trait Tab: Sized + Clone + Eq + Ord + Hash + 'static {
     fn val(&self, m: usize, form: &str) -> bool;
     fn setbit(&mut self, m: usize, form: &str);
     fn logic(g: &str, form: &str, a: &mut Self, b: &Self) -> Option<Self>;
+    /// both operands are the SAME object (aliasing), for the forms that only borrow
+    fn logic_self(g: &str, form: &str, a: &Self) -> Self;
     fn t_flip(&mut self, i: usize, form: &str) -> Option<Self>;
     fn t_swap(&mut self, i: usize, j: usize, form: &str) -> Option<Self>;
     fn t_swapadj(&mut self, i: usize, form: &str) -> Option<Self>;
@@ -163,6 +165,17 @@ macro_rules! shared_methods {
                     None
                 }
                 _ => panic!("HARNESS: bad logic form {} {}", g, form),
+            }
+        }
+        fn logic_self(g: &str, form: &str, a: &Self) -> Self {
+            match (g, form) {
+                ("and", "named") => a.and(a),
+                ("or", "named") => a.or(a),
+                ("xor", "named") => a.xor(a),
+                ("and", "ref_ref") => a & a,
+                ("or", "ref_ref") => a | a,
+                ("xor", "ref_ref") => a ^ a,
+                _ => panic!("HARNESS: bad aliasing form {} {}", g, form),
             }
         }
         fn t_flip(&mut self, i: usize, form: &str) -> Option<Self> {
